@@ -10,8 +10,16 @@ from harness import core
 
 def general_position(P):
     """input conditioning only (the specification re-evaluates its own predicate exactly)"""
+    # samples may repeat a low-dimensional position with different targets: the pre-filter looks at the lowest sample of
+    # every position only (repeated positions with equal targets are ties)
+    if len({tuple(r) for r in P.tolist()}) < len(P) or any(len({tuple(r) for r in P[np.all(P[:, 1:] == x, axis=1)].tolist()}) < int(np.all(P[:, 1:] == x, axis=1).sum()) for x in P[:, 1:]):
+        return False
+    keep = [i for i in range(len(P)) if P[i, 0] == P[np.all(P[:, 1:] == P[i, 1:], axis=1), 0].min()]
+    P = P[keep]
     n, d1 = P.shape
     d = d1 - 1
+    if n < d + 2:
+        return False
     for t in itertools.combinations(range(n), d + 1):
         A = np.hstack([np.ones((d + 1, 1)), P[list(t), 1:]])
         if round(np.linalg.det(A)) == 0:
@@ -88,6 +96,11 @@ def gen(args):
         N = int(rng.integers(d + 2, {1: 13, 2: 10, 3: 8}[d]))
         r = 6
         Xl = rng.integers(-r, r + 1, size=(N, d))
+        if rng.random() < 0.3:
+            # repeated low-dimensional positions (composition grids, discrete features): a few samples sit exactly above others
+            for _ in range(int(rng.integers(1, 4))):
+                a, b = rng.integers(0, N, size=2)
+                Xl[a] = Xl[b]
         conv = rng.random() < 0.5
         yv = (Xl ** 2).sum(1) + rng.integers(0, 6, size=N) if conv else rng.integers(-8, 9, size=N)
         P = np.hstack([yv.reshape(-1, 1), Xl])
